@@ -253,6 +253,61 @@ def emit(repo, spec, H):
              [("fdefine", "VSfdefine", 0), ("setfields_out", "VSsetfields", 0), ("setfields_in", "VSsetfields", 1),
               ("read", "VSread", 0), ("write", "VSwrite", 0), ("setname", "VSsetname", 0), ("setclass", "VSsetclass", 0)])
 
+    # ---- under which conditions is a call reached?  (enclosing if-conditions of the call site, and the conditions of
+    # the early returns / jumps that precede it at the outer level of the function)
+    def guards_of(body, callname, nth=0):
+        ms = list(re.finditer(r"\b%s\s*\(" % callname, body))
+        if len(ms) <= nth:
+            raise ValueError("call of %s not found" % callname)
+        pos = ms[nth].start()
+        stack, headers, i, last = [], [], 0, 0
+        while i < pos:
+            ch = body[i]
+            if ch == "{":
+                stack.append((" ".join(body[last:i].split()), i))
+                last = i + 1
+            elif ch == "}":
+                if stack:
+                    h0, b0 = stack.pop()
+                    m0 = re.match(r"if\s*\((.*)\)$", h0)
+                    if not stack and m0 and re.search(r"\b(return|goto)\b", body[b0:i]):
+                        headers.append("".join(m0.group(1).split()))
+                last = i + 1
+            elif ch == ";":
+                # a statement ends; remember early exits at the outer level
+                st = " ".join(body[last:i].split())
+                m_ = re.match(r"if\s*\((.*)\)\s*(return\b.*|goto\s+\w+)$", st)
+                if m_ and not stack:
+                    headers.append("".join(m_.group(1).split()))
+                last = i + 1
+            i += 1
+        enc = []
+        for h_, _b in stack:
+            m_ = re.match(r"(?:else\s+)?if\s*\((.*)\)$", h_)
+            enc.append("".join(m_.group(1).split()) if m_ else "".join(h_.split()))
+        # early exits written as blocks: "if (c) { ...; return X; }" at the outer level are not decomposed; the run
+        # of the function up to the call must then not contain such a block with a bare return of success
+        return enc, headers
+
+    bgr = H.func_body(H.raw(repo, "mfhdf/hrepack/hrepack_gr.c"), "copy_gr")
+    enc, _ = guards_of(bgr, "GRwritelut")
+    out.append("(* mfhdf/hrepack/hrepack_gr.c: copy_gr: conditions enclosing the call of GRwritelut *)")
+    out.append("Definition copy_gr_writelut_guards : list (list Z) := [%s]." % "; ".join(_bytes(a) for a in enc))
+    enc, _ = guards_of(bgr, "GRreadlut")
+    out.append("Definition copy_gr_readlut_guards : list (list Z) := [%s]." % "; ".join(_bytes(a) for a in enc))
+    bgl = H.func_body(rawl, "list_glb")
+    enc, early = guards_of(bgl, "copy_gr_attrs")
+    out.append("(* mfhdf/hrepack/hrepack_list.c: list_glb: conditions enclosing copy_gr_attrs, and the early exits before it *)")
+    out.append("Definition list_glb_gr_attrs_guards : list (list Z) := [%s]." % "; ".join(_bytes(a) for a in enc))
+    out.append("Definition list_glb_exits_before_gr_attrs : list (list Z) := [%s]." % "; ".join(_bytes(a) for a in early))
+    blm = H.func_body(rawl, "list_main")
+    mh = re.findall(r"if\s*\(([^;{}]*)\)\s*has_GRelems\s*=\s*1\s*;", blm)
+    if len(mh) != 1:
+        raise ValueError("list_main: the has_GRelems test was not found exactly once")
+    out.append("(* mfhdf/hrepack/hrepack_list.c: list_main: has_GRelems = 1 if (%s) *)" % " ".join(mh[0].split()))
+    out.append("Definition has_gr_elems (n_rimages n_file_attrs : Z) : Z := %s." % H.P(
+        " ".join(mh[0].split()), ["n_rimages", "n_file_attrs"], {}).ternary_all())
+
     for ent in spec.get("conds", []):
         f, fn, anchor, name, params, subst = ent[:6]
         txt = H.src(repo, f)
